@@ -4,6 +4,7 @@
 #include "momo/stdish/unordered_multimap.h"
 #include "momo/stdish/set.h"
 #include "momo/stdish/map.h"
+#include "momo/stdish/vector.h"
 namespace momo { namespace stdish {
 template class unordered_set<int>;
 template class unordered_map<int, int>;
@@ -12,9 +13,11 @@ template class set<int>;
 template class multiset<int>;
 template class map<int, int>;
 template class multimap<int, int>;
+template class vector<int>;
 // one use of the members of the (implicitly instantiated) base class map_base so that clang instantiates their bodies
 inline void c06_use(map<int, int>& m, multimap<int, int>& mm, multiset<int>& ms, unordered_set<int>& us, unordered_map<int, int>& um, unordered_multimap<int, int>& umm)
 {
+	ms.insert(ms.begin(), ms.extract(ms.begin()));   // node round trips: insert(hint, node&&) bodies
 	(void)(us == us); (void)(um == um); (void)(umm == umm);   // friend operator== bodies
 	(void)m.at(1); m[1] = 2; m.try_emplace(1, 2); m.insert_or_assign(1, 2); (void)um.at(1); um[1] = 2; um.try_emplace(1, 2); um.insert_or_assign(1, 2);
 	ms.insert(ms.begin(), 1);
